@@ -4,7 +4,7 @@ without being recomputed, is stale from the second iteration on - unless it is a
 stale_reads(fnode, loop) -> [(name, definition stmt, dependency name, first reading node)]
 """
 import ast
-from .core import dotted, src, guarded, guarded_list
+from .core import dotted, src, guarded, guarded_list, AnalysisError
 
 VIEW_ONLY = {'view', 'reshape', 'unsqueeze', 'squeeze', 'diagonal', 'transpose', 'permute', 'narrow', 'select', 'detach', 'view_as',
              'expand', 'expand_as', 'contiguous', 'tensor', 'unbind', 'split', 'chunk', 'flatten'}
@@ -208,4 +208,119 @@ def rule_stale(repo, rid, targets, floor=None):
                 res.add(Finding(rid, f, '`%s` is computed before the loop from `%s` (`%s`), `%s` changes inside the loop, and `%s` is read in the '
                                 'loop without being recomputed: from the second iteration on it is stale' % (name, dep, src(st)[:60], dep, name),
                                 node=st))
+    return res
+
+
+@guarded
+def rule_stale_all(repo, rid, modules):
+    """every loop of every function of the given modules"""
+    from .core import RuleResult, Finding
+    res = RuleResult(rid, 'loop-carried staleness in every loop of these modules: nothing read inside a loop was computed before it from a value the loop changes (in place '
+                     'or by rebinding) unless it is a live view of that value or is recomputed inside the loop', floor=1)
+    n = 0
+    for m in modules:
+        for f in repo.module(m).functions.values():
+            for loop in [x for x in ast.walk(f.node) if isinstance(x, (ast.For, ast.While))]:
+                n += 1
+                hits = stale_reads(f.node, loop) + conditional_stale(f.node, loop)
+                res.inst({'function': f.fq, 'loop_line': loop.lineno, 'stale_reads': len(hits)}, (f.fq, src(loop.test if isinstance(loop, ast.While) else loop.iter)[:60]))
+                for name, st, dep, node in hits:
+                    res.add(Finding(rid, f, '`%s` is computed before the loop from `%s` (`%s`), `%s` changes inside the loop, and `%s` is read in the loop without being '
+                                    'recomputed: from the second iteration on it is stale' % (name, dep, src(st)[:60], dep, name), node=st))
+    res.inst({'loops examined': n}, 'scan')
+    return res
+
+
+# ---------------------------------------------------------------- FIRSTREP: one element standing in for all
+
+def _iter_names(it):
+    """names of the collections a loop / comprehension iterates over: `C`, `zip(C, D)`, `enumerate(C)`, `C.items()`"""
+    out = set()
+    if isinstance(it, ast.Name):
+        out.add(it.id)
+    elif isinstance(it, ast.Call):
+        fn = dotted(it.func) or ''
+        if fn in ('zip', 'enumerate', 'reversed', 'list', 'tuple', 'sorted'):
+            for a in it.args:
+                out |= _iter_names(a)
+        elif isinstance(it.func, ast.Attribute) and it.func.attr in ('items', 'values') and isinstance(it.func.value, ast.Name):
+            out.add(it.func.value.id)
+    return out
+
+
+def first_representatives(fnode):
+    """[(assign, name, collection, use)]: `name` is computed from element 0 of `collection` (`C[0]`, `C[0][0]`) by something that depends on the element's
+    CONTENT SIZE (numel / shape / size / len), and is then used inside a loop or comprehension that runs over `collection` itself - every element is treated with
+    the extent of the first.  dtype / device / ndim of the first element are what a homogeneous collection shares and are not reported."""
+    from .memo import _own_nodes
+    SIZEY = {'numel', 'shape', 'size', 'nelement'}
+    aliases = {}                       # Jrows = J if .. else (J,)  ->  Jrows ~ J
+    for n in _own_nodes(fnode):
+        if isinstance(n, ast.Assign) and len(n.targets) == 1 and isinstance(n.targets[0], ast.Name):
+            for x in ast.walk(n.value):
+                if isinstance(x, ast.Name) and x.id != n.targets[0].id:
+                    aliases.setdefault(n.targets[0].id, set()).add(x.id)
+    out = []
+    for n in _own_nodes(fnode):
+        if not (isinstance(n, ast.Assign) and len(n.targets) == 1 and isinstance(n.targets[0], ast.Name)):
+            continue
+        name = n.targets[0].id
+        coll = None
+        for x in ast.walk(n.value):
+            # <C[0]...>.numel() / .shape / .size(..) / len(C[0]..)
+            base = None
+            if isinstance(x, ast.Attribute) and x.attr in SIZEY:
+                base = x.value
+            elif isinstance(x, ast.Call) and dotted(x.func) == 'len' and x.args:
+                base = x.args[0]
+            while isinstance(base, ast.Subscript):
+                if isinstance(base.slice, ast.Constant) and base.slice.value == 0 and isinstance(base.value, ast.Name):
+                    coll = base.value.id
+                base = base.value
+            if coll:
+                break
+        if not coll:
+            continue
+        for scope in ast.walk(fnode):
+            its, body = [], []
+            if isinstance(scope, ast.For):
+                its, body = [scope.iter], scope.body
+            elif isinstance(scope, (ast.ListComp, ast.GeneratorExp, ast.SetComp, ast.DictComp)):
+                its = [g.iter for g in scope.generators]
+                body = [scope.elt] if not isinstance(scope, ast.DictComp) else [scope.key, scope.value]
+            if not its or getattr(scope, 'lineno', 0) < n.lineno:
+                continue
+            over = set()
+            for it in its:
+                over |= _iter_names(it)
+            if not (coll in over or any(coll in aliases.get(o, ()) for o in over) or any(o in aliases.get(coll, ()) for o in over)):
+                continue
+            for b in body:
+                use = next((y for y in ast.walk(b) if isinstance(y, ast.Name) and y.id == name and isinstance(y.ctx, ast.Load)), None)
+                if use is not None:
+                    out.append((n, name, coll, use))
+                    break
+    return out
+
+
+@guarded
+def rule_firstrep(repo, rid, modules):
+    from .core import RuleResult, Finding
+    res = RuleResult(rid, 'no extent (numel / shape / size / len) taken from element 0 of a collection is applied to every element inside a loop or comprehension over '
+                     'that collection: the elements of a heterogeneous collection (outputs, parameters, residual blocks of different sizes) have their own extents', floor=1)
+    n = 0
+    for m in modules:
+        for f in repo.module(m).functions.values():
+            n += 1
+            for st, name, coll, use in first_representatives(f.node):
+                res.inst({'function': f.fq, 'name': name, 'collection': coll}, (f.fq, name))
+                res.add(Finding(rid, f, '`%s` is computed from the extent of element 0 of `%s` (`%s`) and applied to every element in the loop / comprehension over `%s` at '
+                                'line %d: elements of another size are reshaped / sliced with the first one\'s extent' % (name, coll, src(st)[:70], coll, use.lineno),
+                                node=st, construct='first-element extent|' + name))
+    res.inst({'functions scanned': n}, 'scan')
+    fx = [ast.parse(t).body[0] for t in (
+        "def f(J, ps):\n    nrows = J[0][0].numel() // ps[0].numel()\n    return [j.reshape(nrows, -1) for j in J]\n",
+        "def f(J, ps):\n    dt = J[0].dtype\n    return [j.to(dt).reshape(j.numel() // p.numel(), -1) for j, p in zip(J, ps)]\n")]
+    if [len(first_representatives(x)) for x in fx] != [1, 0]:
+        raise AnalysisError('%s: the first-element fixture is no longer recognised' % rid)
     return res
